@@ -176,7 +176,8 @@ inductive Step (cap : Nat) : State → Event → State → Prop
   | pushEnter {s : State} {t : Nat} {it : Item} : s.thr[t]? = some .idle →
       Step cap s (.pushEnter t it) (s.setT t (.pushing it))
   | pushWait {s : State} {t : Nat} {it : Item} : s.thr[t]? = some (.pushing it) →
-      s.cur + it.size > cap → s.closed = false → Step cap s (.pushWait t) (s.setT t (.waitNF it))
+      s.cur + it.size > cap → s.items ≠ [] → s.closed = false →
+      Step cap s (.pushWait t) (s.setT t (.waitNF it))
   | pushWake {s : State} {t : Nat} {it : Item} : s.thr[t]? = some (.notifNF it) →
       Step cap s (.pushWake t) (s.setT t (.pushing it))
   | pushSpur {s : State} {t : Nat} {it : Item} : s.thr[t]? = some (.waitNF it) →
@@ -184,15 +185,15 @@ inductive Step (cap : Nat) : State → Event → State → Prop
   | pushRefuse {s : State} {t : Nat} {it : Item} : s.thr[t]? = some (.pushing it) →
       s.closed = true → Step cap s (.pushRefuse t) ((s.setT t .idle).log (.refuse t it))
   | pushAdmit {s s' : State} {t : Nat} {it : Item} {w : Option Nat} :
-      s.thr[t]? = some (.pushing it) → s.cur + it.size ≤ cap → s.closed = false →
+      s.thr[t]? = some (.pushing it) → (s.cur + it.size ≤ cap ∨ s.items = []) → s.closed = false →
       NotifNE ((s.setT t .idle).enq t it) w s' → Step cap s (.pushAdmit t w) s'
   | tryPushRefuse {s : State} {t : Nat} {it : Item} : s.thr[t]? = some .idle → s.closed = true →
       Step cap s (.tryPushRefuse t it) (s.log (.refuse t it))
   | tryPushWouldBlock {s : State} {t : Nat} {it : Item} : s.thr[t]? = some .idle →
-      s.closed = false → s.cur + it.size > cap →
+      s.closed = false → s.cur + it.size > cap → s.items ≠ [] →
       Step cap s (.tryPushWouldBlock t it) (s.log (.wouldBlock t it))
   | tryPushAdmit {s s' : State} {t : Nat} {it : Item} {w : Option Nat} : s.thr[t]? = some .idle →
-      s.closed = false → s.cur + it.size ≤ cap → NotifNE (s.enq t it) w s' →
+      s.closed = false → (s.cur + it.size ≤ cap ∨ s.items = []) → NotifNE (s.enq t it) w s' →
       Step cap s (.tryPushAdmit t it w) s'
   | pullEnter {s : State} {t : Nat} : s.thr[t]? = some .idle →
       Step cap s (.pullEnter t) (s.setT t .pulling)
@@ -227,7 +228,7 @@ theorem step_sound {cap : Nat} {s s' : State} {e : Event} (h : step cap s e = so
     split at h
     · next it ht =>
       split at h
-      · next hc => simp only [Option.some.injEq] at h; subst h; exact .pushWait ht hc.1 hc.2
+      · next hc => simp only [Option.some.injEq] at h; subst h; exact .pushWait ht hc.1 hc.2.1 hc.2.2
       · simp at h
     · simp at h
   case pushWake t =>
@@ -258,7 +259,7 @@ theorem step_sound {cap : Nat} {s s' : State} {e : Event} (h : step cap s e = so
     · simp at h
   case tryPushWouldBlock t it =>
     split at h
-    · next hc => simp only [Option.some.injEq] at h; subst h; exact .tryPushWouldBlock hc.1 hc.2.1 hc.2.2
+    · next hc => simp only [Option.some.injEq] at h; subst h; exact .tryPushWouldBlock hc.1 hc.2.1 hc.2.2.1 hc.2.2.2
     · simp at h
   case tryPushAdmit t it w =>
     split at h
@@ -310,23 +311,26 @@ theorem step_sound {cap : Nat} {s s' : State} {e : Event} (h : step cap s e = so
 /-- what each linearisation event asserts about the history before it -/
 def HistOK (cap : Nat) : List HEv → Prop
   | [] => True
-  | .accept _ x :: h => closedIn h = false ∧ sizeSum (queuedOf h) + x.size ≤ cap ∧ HistOK cap h
+  | .accept _ x :: h =>
+    closedIn h = false ∧ (sizeSum (queuedOf h) + x.size ≤ cap ∨ queuedOf h = []) ∧ HistOK cap h
   | .take _ x :: h => (x ∈ queuedOf h ∧ ∀ y ∈ queuedOf h, y.prio ≤ x.prio) ∧ HistOK cap h
   | .refuse _ _ :: h => closedIn h = true ∧ HistOK cap h
-  | .wouldBlock _ x :: h => closedIn h = false ∧ sizeSum (queuedOf h) + x.size > cap ∧ HistOK cap h
+  | .wouldBlock _ x :: h =>
+    closedIn h = false ∧ sizeSum (queuedOf h) + x.size > cap ∧ queuedOf h ≠ [] ∧ HistOK cap h
   | .eos _ :: h => closedIn h = true ∧ queuedOf h = [] ∧ HistOK cap h
   | .empty _ :: h => queuedOf h = [] ∧ HistOK cap h
   | .close _ :: h => HistOK cap h
 
 structure InvA (cap : Nat) (s : State) : Prop where
   cur_eq : s.cur = sizeSum s.items
-  cur_le : s.cur ≤ cap
+  /-- within capacity, or exactly one item is queued (it was admitted into the empty queue) -/
+  bound : s.cur ≤ cap ∨ ∃ x, s.items = [x]
   perm : (queuedOf s.hist).Perm s.items
   closed_eq : s.closed = closedIn s.hist
   hist : HistOK cap s.hist
 
 theorem InvA_init (cap n : Nat) : InvA cap (init n) :=
-  ⟨rfl, Nat.zero_le _, List.Perm.refl _, rfl, trivial⟩
+  ⟨rfl, .inl (Nat.zero_le _), List.Perm.refl _, rfl, trivial⟩
 
 theorem InvA_setT {cap : Nat} {s : State} (t : Nat) (st : TStatus) (h : InvA cap s) :
     InvA cap (s.setT t st) := ⟨h.1, h.2, h.3, h.4, h.5⟩
@@ -344,22 +348,37 @@ theorem InvA_notifNF {cap : Nat} {s s' : State} {w} (hn : NotifNF s w s') (h : I
   | none _ => exact h
 
 theorem InvA_admit {cap : Nat} {s : State} (t : Nat) (it : Item) (h : InvA cap s)
-    (hfit : s.cur + it.size ≤ cap) (hc : s.closed = false) : InvA cap (s.enq t it) := by
-  refine ⟨?_, hfit, ?_, ?_, ?_⟩
+    (hfit : s.cur + it.size ≤ cap ∨ s.items = []) (hc : s.closed = false) :
+    InvA cap (s.enq t it) := by
+  refine ⟨?_, ?_, ?_, ?_, ?_⟩
   · simp only [State.enq, sizeSum, h.cur_eq]; omega
+  · rcases hfit with hfit | he
+    · exact .inl hfit
+    · exact .inr ⟨it, by simp only [State.enq, he]⟩
   · simp only [State.enq, queuedOf]; exact h.perm.cons it
   · simp only [State.enq, closedIn, List.any_cons, HEv.isClose, Bool.false_or]
     exact h.closed_eq
   · simp only [State.enq, HistOK]
     refine ⟨by rw [← h.closed_eq]; exact hc, ?_, h.hist⟩
-    rw [sizeSum_perm h.perm, ← h.cur_eq]; exact hfit
+    rcases hfit with hfit | he
+    · left; rw [sizeSum_perm h.perm, ← h.cur_eq]; exact hfit
+    · right; exact List.Perm.eq_nil (he ▸ h.perm)
 
 theorem InvA_take {cap : Nat} {s : State} (t : Nat) (it : Item) (h : InvA cap s)
     (hmem : it ∈ s.items) (hmax : ∀ y ∈ s.items, y.prio ≤ it.prio) : InvA cap (s.take t it) := by
   have hs := sizeSum_erase hmem
   refine ⟨?_, ?_, ?_, ?_, ?_⟩
   · simp only [State.take]; have := h.cur_eq; omega
-  · simp only [State.take]; have := h.cur_le; omega
+  · simp only [State.take]
+    rcases h.bound with hb | ⟨x, hx⟩
+    · left; omega
+    · left
+      have hcur := h.cur_eq
+      rw [hx] at hmem hcur
+      have : it = x := by simpa using hmem
+      subst this
+      simp only [sizeSum] at hcur
+      omega
   · simp only [State.take, queuedOf]; exact h.perm.erase it
   · simp only [State.take, closedIn, List.any_cons, HEv.isClose, Bool.false_or]
     exact h.closed_eq
@@ -373,7 +392,7 @@ theorem InvA_step {cap : Nat} (s : State) (e : Event) (s' : State) (hi : InvA ca
   have hsum : sizeSum (queuedOf s.hist) = s.cur := by rw [sizeSum_perm hi.perm, hi.cur_eq]
   cases step_sound hs with
   | pushEnter ht => exact InvA_setT _ _ hi
-  | pushWait ht _ _ => exact InvA_setT _ _ hi
+  | pushWait ht _ _ _ => exact InvA_setT _ _ hi
   | pushWake ht => exact InvA_setT _ _ hi
   | pushSpur ht => exact InvA_setT _ _ hi
   | pushRefuse ht hc =>
@@ -388,11 +407,13 @@ theorem InvA_step {cap : Nat} (s : State) (e : Event) (s' : State) (hi : InvA ca
     · simp only [State.log, closedIn, List.any_cons, HEv.isClose, Bool.false_or]
       exact hi.closed_eq
     · simp only [State.log, HistOK]; exact ⟨hi.closed_eq ▸ hc, hi.hist⟩
-  | tryPushWouldBlock ht hc hfull =>
+  | tryPushWouldBlock ht hc hfull hne =>
     refine ⟨hi.1, hi.2, hi.3, ?_, ?_⟩
     · simp only [State.log, closedIn, List.any_cons, HEv.isClose, Bool.false_or]
       exact hi.closed_eq
-    · simp only [State.log, HistOK]; exact ⟨hi.closed_eq ▸ hc, by rw [hsum]; exact hfull, hi.hist⟩
+    · simp only [State.log, HistOK]
+      refine ⟨hi.closed_eq ▸ hc, by rw [hsum]; exact hfull, fun hq => hne ?_, hi.hist⟩
+      exact List.Perm.eq_nil (hq ▸ hi.perm.symm)
   | tryPushAdmit ht hc hfit hn => exact InvA_notifNE hn (InvA_admit _ _ hi hfit hc)
   | pullEnter ht => exact InvA_setT _ _ hi
   | pullWait ht _ _ => exact InvA_setT _ _ hi
@@ -428,7 +449,7 @@ theorem HistOK_tail {cap : Nat} {e : HEv} {h : List HEv} (hk : HistOK cap (e :: 
   · exact hk.2.2
   · exact hk.2
   · exact hk.2
-  · exact hk.2.2
+  · exact hk.2.2.2
   · exact hk.2.2
   · exact hk.2
   · exact hk
@@ -538,7 +559,7 @@ theorem InvB_step {cap : Nat} (s : State) (e : Event) (s' : State) (hi : InvB s)
   obtain ⟨h1, h2, h3⟩ := hi
   cases step_sound hs with
   | @pushEnter t it ht => cnts ht, (.pushing it); bfin s, h1 h2 h3
-  | @pushWait t it ht hfull hc => cnts ht, (.waitNF it); bfin s, h1 h2 h3
+  | @pushWait t it ht hfull hne hc => cnts ht, (.waitNF it); bfin s, h1 h2 h3
   | @pushWake t it ht => cnts ht, (.pushing it); bfin s, h1 h2 h3
   | @pushSpur t it ht => cnts ht, (.pushing it); bfin s, h1 h2 h3
   | @pushRefuse t it ht hc => cnts ht, .idle; bfin s, h1 h2 h3
@@ -548,7 +569,7 @@ theorem InvB_step {cap : Nat} (s : State) (e : Event) (s' : State) (hi : InvB s)
     | @some u hu => cnts hu, .notifNE; bfin s, h1 h2 h3
     | none hz => simp only [State.setT, State.enq] at hz; bfin s, h1 h2 h3
   | tryPushRefuse ht hc => exact ⟨h1, h2, h3⟩
-  | tryPushWouldBlock ht hc hfull => exact ⟨h1, h2, h3⟩
+  | tryPushWouldBlock ht hc hfull hne => exact ⟨h1, h2, h3⟩
   | @tryPushAdmit _ t it w ht hc hfit hn =>
     cases hn with
     | @some u hu => cnts hu, .notifNE; bfin s, h1 h2 h3
@@ -589,7 +610,8 @@ theorem InvB_run {cap n : Nat} {evs : List Event} {s : State}
 
 /-! ### `not_full`, any number of producers: the weak no-lost-wake-up invariant -/
 
-/-- every `push` that is started carries an item that fits on its own -/
+/-- every `push` that is started carries an item that fits on its own (only used to state
+witnesses; since the repair of D5 no invariant needs it) -/
 def FitsEv (cap : Nat) : Event → Prop
   | .pushEnter _ it => it.size ≤ cap
   | _ => True
@@ -597,34 +619,23 @@ def FitsEv (cap : Nat) : Event → Prop
 instance (cap : Nat) : DecidablePred (FitsEv cap) := fun e => by
   cases e <;> simp only [FitsEv] <;> infer_instance
 
-structure InvC (cap : Nat) (s : State) : Prop where
-  a : InvA cap s
+/-- A producer goes to sleep only on a non-empty queue (line 108), and the take that empties the
+queue notifies: while a producer sleeps un-notified the queue is non-empty or a producer is on its
+way. No hypothesis on the sizes. -/
+structure InvC (s : State) : Prop where
   b : InvB s
-  fits : ∀ st ∈ s.thr, ∀ it, st.item? = some it → it.size ≤ cap
   nf : 0 < s.thr.countP isWaitNF →
     0 < s.items.length + s.thr.countP isNotifNF + s.thr.countP isPushing
 
-theorem InvC_init (cap n : Nat) : InvC cap (init n) := by
-  refine ⟨InvA_init cap n, InvB_init n, ?_, ?_⟩
-  · intro st hst it hit
-    rw [(List.mem_replicate.mp hst).2] at hit
-    simp [item?] at hit
-  · intro h
-    exfalso
-    have : (init n).thr.countP isWaitNF = 0 := by
-      rw [List.countP_eq_zero]
-      intro a ha
-      rw [(List.mem_replicate.mp ha).2]; simp [isWaitNF]
-    omega
-
-theorem fits_set {cap : Nat} {l : List TStatus} {t : Nat} {b : TStatus}
-    (h : ∀ st ∈ l, ∀ it, st.item? = some it → it.size ≤ cap)
-    (hb : ∀ it, b.item? = some it → it.size ≤ cap) :
-    ∀ st ∈ l.set t b, ∀ it, st.item? = some it → it.size ≤ cap := by
-  intro st hst
-  rcases List.mem_or_eq_of_mem_set hst with h' | rfl
-  · exact h st h'
-  · exact hb
+theorem InvC_init (n : Nat) : InvC (init n) := by
+  refine ⟨InvB_init n, ?_⟩
+  intro h
+  exfalso
+  have : (init n).thr.countP isWaitNF = 0 := by
+    rw [List.countP_eq_zero]
+    intro a ha
+    rw [(List.mem_replicate.mp ha).2]; simp [isWaitNF]
+  omega
 
 /-- close the `nf` goal of `InvC` once the count equations are in the context -/
 macro "cfin " s:term ", " h4:ident : tactic => `(tactic| (
@@ -634,113 +645,56 @@ macro "cfin " s:term ", " h4:ident : tactic => `(tactic| (
   · have := $h4 hW; omega
   · omega))
 
-theorem InvC_step {cap : Nat} (s : State) (e : Event) (s' : State) (hi : InvC cap s)
-    (hq : FitsEv cap e) (hs : step cap s e = some s') : InvC cap s' := by
-  obtain ⟨ha, hb, h3, h4⟩ := hi
-  have ha' := InvA_step s e s' ha hs
-  have hb' := InvB_step s e s' hb hs
-  refine ⟨ha', hb', ?_, ?_⟩
-  · -- carried items fit
-    have hsame : ∀ it' (st : TStatus), (∃ t, s.thr[t]? = some st) → st.item? = some it' →
-        it'.size ≤ cap := fun it' st ⟨t, ht⟩ => h3 st (List.mem_of_getElem? ht) it'
-    cases step_sound hs with
-    | @pushEnter t it ht =>
-      exact fits_set h3 (fun it' h => by simp only [item?, Option.some.injEq] at h; subst h; exact hq)
-    | @pushWait t it ht hfull hc =>
-      exact fits_set h3 (fun it' h => by
-        simp only [item?, Option.some.injEq] at h; subst h; exact hsame _ _ ⟨t, ht⟩ rfl)
-    | @pushWake t it ht =>
-      exact fits_set h3 (fun it' h => by
-        simp only [item?, Option.some.injEq] at h; subst h; exact hsame _ _ ⟨t, ht⟩ rfl)
-    | @pushSpur t it ht =>
-      exact fits_set h3 (fun it' h => by
-        simp only [item?, Option.some.injEq] at h; subst h; exact hsame _ _ ⟨t, ht⟩ rfl)
-    | @pushRefuse t it ht hc => exact fits_set h3 (fun it' h => by simp [item?] at h)
-    | @pushAdmit _ t it w ht hfit hc hn =>
-      have h3' := fits_set (t := t) (b := .idle) h3 (fun it' h => by simp [item?] at h)
-      cases hn with
-      | @some u hu => exact fits_set h3' (fun it' h => by simp [item?] at h)
-      | none hz => exact h3'
-    | tryPushRefuse ht hc => exact h3
-    | tryPushWouldBlock ht hc hfull => exact h3
-    | @tryPushAdmit _ t it w ht hc hfit hn =>
-      cases hn with
-      | @some u hu => exact fits_set h3 (fun it' h => by simp [item?] at h)
-      | none hz => exact h3
-    | @pullEnter t ht => exact fits_set h3 (fun it' h => by simp [item?] at h)
-    | @pullWait t ht he hc => exact fits_set h3 (fun it' h => by simp [item?] at h)
-    | @pullWake t ht => exact fits_set h3 (fun it' h => by simp [item?] at h)
-    | @pullSpur t ht => exact fits_set h3 (fun it' h => by simp [item?] at h)
-    | @pullEos t ht he hc => exact fits_set h3 (fun it' h => by simp [item?] at h)
-    | @pullTake _ t it w ht hm hmax hn =>
-      have h3' := fits_set (t := t) (b := .idle) h3 (fun it' h => by simp [item?] at h)
-      cases hn with
-      | @some u x hu =>
-        refine fits_set h3' (fun it' h => ?_)
-        simp only [item?, Option.some.injEq] at h; subst h
-        exact h3' _ (List.mem_of_getElem? hu) _ rfl
-      | none hz => exact h3'
-    | tryPullEmpty ht he => exact h3
-    | @tryPullTake _ t it w ht hm hmax hn =>
-      cases hn with
-      | @some u x hu =>
-        refine fits_set h3 (fun it' h => ?_)
-        simp only [item?, Option.some.injEq] at h; subst h
-        exact h3 _ (List.mem_of_getElem? hu) _ rfl
-      | none hz => exact h3
-    | @close t ht =>
-      intro st hst it' hit
-      obtain ⟨b, hb, rfl⟩ := List.mem_map.mp hst
-      refine h3 b hb it' ?_
-      cases b <;> exact hit
-  · -- a waiting producer is covered
-    cases step_sound hs with
-    | @pushEnter t it ht => cnts ht, (.pushing it); cfin s, h4
-    | @pushWait t it ht hfull hc =>
-      cnts ht, (.waitNF it)
-      have hsz : it.size ≤ cap := h3 _ (List.mem_of_getElem? ht) it rfl
-      have hpos : 0 < s.items.length := sizeSum_pos_length (by have := ha.cur_eq; omega)
-      cfin s, h4
-    | @pushWake t it ht => cnts ht, (.pushing it); cfin s, h4
-    | @pushSpur t it ht => cnts ht, (.pushing it); cfin s, h4
-    | @pushRefuse t it ht hc =>
-      cnts ht, .idle
-      have := hb.closedNF hc
-      cfin s, h4
-    | @pushAdmit _ t it w ht hfit hc hn =>
-      cnts ht, .idle
-      cases hn with
-      | @some u hu => cnts hu, .notifNE; cfin s, h4
-      | none hz => cfin s, h4
-    | tryPushRefuse ht hc => exact h4
-    | tryPushWouldBlock ht hc hfull => exact h4
-    | @tryPushAdmit _ t it w ht hc hfit hn =>
-      cases hn with
-      | @some u hu => cnts hu, .notifNE; cfin s, h4
-      | none hz => cfin s, h4
-    | @pullEnter t ht => cnts ht, .pulling; cfin s, h4
-    | @pullWait t ht he hc => cnts ht, .waitNE; cfin s, h4
-    | @pullWake t ht => cnts ht, .pulling; cfin s, h4
-    | @pullSpur t ht => cnts ht, .pulling; cfin s, h4
-    | @pullEos t ht he hc => cnts ht, .idle; cfin s, h4
-    | @pullTake _ t it w ht hm hmax hn =>
-      cnts ht, .idle
-      cases hn with
-      | @some u x hu => cnts hu, (.notifNF x); cfin s, h4
-      | none hz => simp only [State.setT, State.take] at hz; cfin s, h4
-    | tryPullEmpty ht he => exact h4
-    | @tryPullTake _ t it w ht hm hmax hn =>
-      cases hn with
-      | @some u x hu => cnts hu, (.notifNF x); cfin s, h4
-      | none hz => simp only [State.take] at hz; cfin s, h4
-    | @close t ht =>
-      intro hw
-      simp only [countP_wakeAll_waitNF] at hw
-      omega
+theorem InvC_step {cap : Nat} (s : State) (e : Event) (s' : State) (hi : InvC s)
+    (hs : step cap s e = some s') : InvC s' := by
+  obtain ⟨hb, h4⟩ := hi
+  refine ⟨InvB_step s e s' hb hs, ?_⟩
+  cases step_sound hs with
+  | @pushEnter t it ht => cnts ht, (.pushing it); cfin s, h4
+  | @pushWait t it ht hfull hne hc =>
+    cnts ht, (.waitNF it)
+    have hpos : 0 < s.items.length := List.length_pos_iff.mpr hne
+    cfin s, h4
+  | @pushWake t it ht => cnts ht, (.pushing it); cfin s, h4
+  | @pushSpur t it ht => cnts ht, (.pushing it); cfin s, h4
+  | @pushRefuse t it ht hc =>
+    cnts ht, .idle
+    have := hb.closedNF hc
+    cfin s, h4
+  | @pushAdmit _ t it w ht hfit hc hn =>
+    cnts ht, .idle
+    cases hn with
+    | @some u hu => cnts hu, .notifNE; cfin s, h4
+    | none hz => cfin s, h4
+  | tryPushRefuse ht hc => exact h4
+  | tryPushWouldBlock ht hc hfull hne => exact h4
+  | @tryPushAdmit _ t it w ht hc hfit hn =>
+    cases hn with
+    | @some u hu => cnts hu, .notifNE; cfin s, h4
+    | none hz => cfin s, h4
+  | @pullEnter t ht => cnts ht, .pulling; cfin s, h4
+  | @pullWait t ht he hc => cnts ht, .waitNE; cfin s, h4
+  | @pullWake t ht => cnts ht, .pulling; cfin s, h4
+  | @pullSpur t ht => cnts ht, .pulling; cfin s, h4
+  | @pullEos t ht he hc => cnts ht, .idle; cfin s, h4
+  | @pullTake _ t it w ht hm hmax hn =>
+    cnts ht, .idle
+    cases hn with
+    | @some u x hu => cnts hu, (.notifNF x); cfin s, h4
+    | none hz => simp only [State.setT, State.take] at hz; cfin s, h4
+  | tryPullEmpty ht he => exact h4
+  | @tryPullTake _ t it w ht hm hmax hn =>
+    cases hn with
+    | @some u x hu => cnts hu, (.notifNF x); cfin s, h4
+    | none hz => simp only [State.take] at hz; cfin s, h4
+  | @close t ht =>
+    intro hw
+    simp only [countP_wakeAll_waitNF] at hw
+    omega
 
 theorem InvC_run {cap n : Nat} {evs : List Event} {s : State}
-    (hq : ∀ e ∈ evs, FitsEv cap e) (h : run cap (init n) evs = some s) : InvC cap s :=
-  run_invariant (Q := FitsEv cap) InvC_step evs _ _ (InvC_init cap n) hq h
+    (h : run cap (init n) evs = some s) : InvC s :=
+  run_invariant' InvC_step evs _ _ (InvC_init n) h
 
 /-! ### `not_full`, one producer: a waiting producer really does not fit -/
 
@@ -754,7 +708,8 @@ instance (p : Nat) : DecidablePred (OnlyPusher p) := fun e => by
 
 structure InvD (cap p : Nat) (s : State) : Prop where
   only : ∀ t st, s.thr[t]? = some st → st.item? ≠ none → t = p
-  wait : ∀ (t : Nat) (it : Item), s.thr[t]? = some (TStatus.waitNF it) → s.cur + it.size > cap ∧ s.closed = false
+  wait : ∀ (t : Nat) (it : Item), s.thr[t]? = some (TStatus.waitNF it) →
+    s.cur + it.size > cap ∧ s.items ≠ [] ∧ s.closed = false
 
 theorem InvD_init (cap p n : Nat) : InvD cap p (init n) := by
   constructor
@@ -781,7 +736,7 @@ theorem get_set {l : List TStatus} {t u : Nat} {b st : TStatus}
 
 theorem InvD_setT {cap p : Nat} {s : State} {t : Nat} {b : TStatus} (hi : InvD cap p s)
     (hb1 : b.item? ≠ none → t = p)
-    (hb2 : ∀ it, b = .waitNF it → s.cur + it.size > cap ∧ s.closed = false) :
+    (hb2 : ∀ it, b = .waitNF it → s.cur + it.size > cap ∧ s.items ≠ [] ∧ s.closed = false) :
     InvD cap p (s.setT t b) := by
   constructor
   · intro u st h hne
@@ -800,9 +755,9 @@ theorem InvD_step {cap p : Nat} (s : State) (e : Event) (s' : State) (hi : InvD 
   cases step_sound hs with
   | @pushEnter t it ht =>
     exact InvD_setT hi (fun _ => hq) (fun it' h => by cases h)
-  | @pushWait t it ht hfull hc =>
+  | @pushWait t it ht hfull hne hc =>
     refine InvD_setT hi (fun _ => carried ht (by simp [item?])) (fun it' h => ?_)
-    cases h; exact ⟨hfull, hc⟩
+    cases h; exact ⟨hfull, hne, hc⟩
   | @pushWake t it ht =>
     exact InvD_setT hi (fun _ => carried ht (by simp [item?])) (fun it' h => by cases h)
   | @pushSpur t it ht =>
@@ -817,18 +772,18 @@ theorem InvD_step {cap p : Nat} (s : State) (e : Event) (s' : State) (hi : InvD 
       refine ⟨h1.only, fun u x hu => ?_⟩
       have := h1.wait u x hu
       simp only [State.enq, State.setT] at this ⊢
-      exact ⟨by omega, this.2⟩
+      exact ⟨by omega, by simp, this.2.2⟩
     cases hn with
     | @some u hu => exact InvD_setT h2 (fun h => absurd rfl h) (fun it' h => by cases h)
     | none hz => exact h2
   | tryPushRefuse ht hc => exact ⟨hi.only, hi.wait⟩
-  | tryPushWouldBlock ht hc hfull => exact ⟨hi.only, hi.wait⟩
+  | tryPushWouldBlock ht hc hfull hne => exact ⟨hi.only, hi.wait⟩
   | @tryPushAdmit _ t it w ht hc hfit hn =>
     have h2 : InvD cap p (s.enq t it) := by
       refine ⟨hi.only, fun u x hu => ?_⟩
       have := hi.wait u x hu
       simp only [State.enq] at this ⊢
-      exact ⟨by omega, this.2⟩
+      exact ⟨by omega, by simp, this.2.2⟩
     cases hn with
     | @some u hu => exact InvD_setT h2 (fun h => absurd rfl h) (fun it' h => by cases h)
     | none hz => exact h2
@@ -1006,7 +961,7 @@ theorem InvR_step {cap : Nat} {R : Item → Prop} (s : State) (e : Event) (s' : 
   | @pushEnter t it ht =>
     exact ⟨carried_set h3 (fun it' h => by
       simp only [item?, Option.some.injEq] at h; subst h; exact hq), h5⟩
-  | @pushWait t it ht hfull hc =>
+  | @pushWait t it ht hfull hne hc =>
     exact ⟨carried_set h3 (fun it' h => by
       simp only [item?, Option.some.injEq] at h; subst h; exact hsame _ _ ⟨t, ht⟩ rfl), h5⟩
   | @pushWake t it ht =>
@@ -1027,7 +982,7 @@ theorem InvR_step {cap : Nat} {R : Item → Prop} (s : State) (e : Event) (s' : 
     | @some u hu => exact ⟨carried_set h3' (fun it' h => by simp [item?] at h), hacc⟩
     | none hz => exact ⟨h3', hacc⟩
   | tryPushRefuse ht hc => exact ⟨h3, h5⟩
-  | tryPushWouldBlock ht hc hfull => exact ⟨h3, h5⟩
+  | tryPushWouldBlock ht hc hfull hne => exact ⟨h3, h5⟩
   | @tryPushAdmit _ t it w ht hc hfit hn =>
     have hacc : ∀ x ∈ it :: accepted s.hist, R x := by
       intro x hx
@@ -1210,26 +1165,54 @@ theorem stuck2_enabled (e : Event) (s' : State) (h : step 10 stuck2 e = some s')
     cases e <;> simp [Event.pre, isIdle, isPushing, isNotifNF, isWaitNF, isPulling, isNotifNE, isWaitNE] at hp
     simp only [Event.tid] at h2; rw [h2]
 
-/-! an item larger than the capacity -/
+/-! an item larger than the capacity (after the repair of D5, commit c0ac607) -/
 def Big : Item := ⟨1, 0, 6⟩
+def small : Item := ⟨2, 0, 2⟩
 
-def evs3 : List Event := [ .pullEnter 1, .pullWait 1, .pushEnter 0 Big, .pushWait 0 ]
+/-- capacity 4, empty queue, a sleeping consumer: the 6-byte item is admitted at once, the consumer
+is notified and takes it.
 
-def stuck3 : State :=
-  { items := [], cur := 0, closed := false, thr := [.waitNF Big, .waitNE], hist := [] }
+Before the repair the same prefix `[pullEnter 1, pullWait 1, pushEnter 0 Big]` continued with
+`pushWait 0` into `{items := [], thr := [waitNF Big, waitNE]}`, a state in which only spurious
+wake-ups were enabled (the former witness `oversize_blocks`, defect D5). -/
+def evs3 : List Event :=
+  [ .pullEnter 1, .pullWait 1, .pushEnter 0 Big, .pushAdmit 0 (some 1), .pullWake 1,
+    .pullTake 1 Big none ]
 
-theorem run_evs3 : run 4 (init 2) evs3 = some stuck3 := by decide
+/-- after the admission: 6 bytes queued with capacity 4, exactly one item -/
+def over3 : State :=
+  { items := [Big], cur := 6, closed := false, thr := [.idle, .notifNE], hist := [.accept 0 Big] }
 
-theorem stuck3_enabled (e : Event) (s' : State) (h : step 4 stuck3 e = some s') :
-    e = .pushSpur 0 ∨ e = .pullSpur 1 := by
-  obtain ⟨st, ht, hp⟩ := step_pre h
-  rcases get2 ht with ⟨h0, rfl⟩ | ⟨h1, rfl⟩
-  · left
-    cases e <;> simp [Event.pre, isIdle, isPushing, isNotifNF, isWaitNF, isPulling, isNotifNE, isWaitNE] at hp
-    simp only [Event.tid] at h0; rw [h0]
-  · right
-    cases e <;> simp [Event.pre, isIdle, isPushing, isNotifNF, isWaitNF, isPulling, isNotifNE, isWaitNE] at hp
-    simp only [Event.tid] at h1; rw [h1]
+def final3 : State :=
+  { items := [], cur := 0, closed := false, thr := [.idle, .idle],
+    hist := [.take 1 Big, .accept 0 Big] }
+
+theorem run_over3 : run 4 (init 2) (evs3.take 4) = some over3 := by decide
+theorem run_evs3 : run 4 (init 2) evs3 = some final3 := by decide
+
+/-- capacity 4, 2 bytes queued: the 6-byte push sleeps (non-empty queue), the take that empties the
+queue notifies it, and it is admitted into the empty queue. -/
+def evs4 : List Event :=
+  [ .tryPushAdmit 0 small none, .pushEnter 0 Big, .pushWait 0, .tryPullTake 1 small (some 0),
+    .pushWake 0, .pushAdmit 0 none ]
+
+def final4 : State :=
+  { items := [Big], cur := 6, closed := false, thr := [.idle, .idle],
+    hist := [.accept 0 Big, .take 1 small, .accept 0 small] }
+
+theorem run_evs4 : run 4 (init 2) evs4 = some final4 := by decide
 
 end Demo
+
+/-! ### `notify_one` can always be resolved; what a thread inside `push` can do -/
+
+theorem notifyNE_enabled (s : State) : ∃ w s', notifyNE s w = some s' := by
+  by_cases h : s.thr.countP isWaitNE = 0
+  · exact ⟨none, s, by simp only [notifyNE, all_not_of_countP_zero _ h, ↓reduceIte]⟩
+  · obtain ⟨x, hx, hw⟩ := List.countP_pos_iff.mp (Nat.pos_of_ne_zero h)
+    obtain ⟨u, hu⟩ := List.getElem?_of_mem hx
+    have : x = .waitNE := by cases x <;> simp [isWaitNE] at hw; rfl
+    subst this
+    exact ⟨some u, s.setT u .notifNE, by simp only [notifyNE, hu, ↓reduceIte]⟩
+
 end Ragc.Queue
